@@ -213,7 +213,7 @@ def proof_obligations(prop: str, extra_modules: list[str] | None = None, driver=
 # ------------------------------------------------------------------ driver
 
 
-def run_driver(requests: list[dict], timeout=1800) -> list[str]:
+def _run_driver_once(requests: list[dict], timeout) -> list[str]:
     inp = "\n".join(json.dumps(r, ensure_ascii=False) for r in requests) + "\n"
     r = subprocess.run([DRIVER], input=inp, capture_output=True, text=True, timeout=timeout)
     if r.returncode != 0:
@@ -224,6 +224,21 @@ def run_driver(requests: list[dict], timeout=1800) -> list[str]:
     if len(lines) != len(requests):
         raise RuntimeError(f"driver answered {len(lines)} lines for {len(requests)} requests")
     return lines
+
+
+def run_driver(requests: list[dict], timeout=1800) -> list[str]:
+    """the requests go through the compiled Lean driver; the driver is stateless per line, so large batches are split
+    over several driver processes (answers keep the order of the requests)"""
+    if len(requests) <= 1500:
+        return _run_driver_once(requests, timeout)
+    from concurrent.futures import ThreadPoolExecutor
+
+    workers = min(14, os.cpu_count() or 4)
+    size = max(200, -(-len(requests) // (workers * 4)))
+    chunks = [requests[i:i + size] for i in range(0, len(requests), size)]
+    with ThreadPoolExecutor(max_workers=workers) as ex:
+        parts = list(ex.map(lambda c: _run_driver_once(c, timeout), chunks))
+    return [line for part in parts for line in part]
 
 
 # ------------------------------------------------------------------ findings
